@@ -31,7 +31,7 @@ SHARD_WATCHDOG = {"quick": 1500, "thorough": 10800}
 
 
 def gen_cases(tier, seed):
-    k = 1 if tier == "quick" else 12
+    k = 1 if tier == "quick" else 80
     cases = [{"kind": "rr", "i": i, "seed": seed} for i in range(40 * k)]
     cases += [{"kind": "rl", "i": i, "seed": seed} for i in range(40 * k)]
     cases += [{"kind": "ctor", "i": i, "seed": seed} for i in range(2)]
